@@ -17,6 +17,7 @@ RULE = ('(a) random derivations of the grammar (and one-token mutants: list_name
         '%a%%b%), with comments and all three line ends; preceded by 0-2 arbitrary earlier calls on the same parser (failed parses at bracket depth, abandoned '
         'list_names generators, evals); (b) the same texts with an illegal character spliced into a token gap; (c) evaluation of parsable programs with a recording '
         'host mapping. Non-trivial = a text with >= 1 identifier compared / >= 1 host lookup recorded; distinct = distinct text.')
+RULE += ' The identifier pool includes letters that Unicode normalisation would rewrite (OHM/KELVIN/ANGSTROM SIGN, fullwidth letters, ligatures).'
 ASSUMPTIONS = ['two tokens may abut exactly when no longer token could be formed across the junction (rule written down in may_abut(), from the lexical grammar)',
                'implicit names of syntax sugar: list, dict, __getitem__, __setitem__, __delitem__, __setitem_with_op__',
                'a partially consumed list_names generator is abandoned, never resumed after another call']
@@ -26,7 +27,9 @@ IMPLICIT = {'list', 'dict', '__getitem__', '__setitem__', '__delitem__', '__seti
 
 NAME_POOL = ['a', 'b', 'x', 'f', 'g', 'имя', '_t', 'k2', 'notx', 'in1', 'Truex', 'Nonesuch', 'ifx', 'delta', 'andy', 'r', 'rr', 'ar', 'or_', 'x_1', 'ǅx', '变量',
              'len', 'map', 'str', 'push', 'sorted', '%user name%', '%a.b%', '%x+y%', '%"q"%', "%it's%", '%#tag%', '%a,b;c%', '% %', '%1%', '%if%', '%(%',
-             'ª', 'µm', 'x²' if False else 'x2', 'ℌ', 'e3', 'E']
+             'ª', 'µm', 'x²' if False else 'x2', 'ℌ', 'e3', 'E',
+             # letters that Unicode normalisation rewrites (NFC: OHM SIGN, KELVIN SIGN, ANGSTROM SIGN; NFKC: fullwidth, ligature): the name asked for is the name as written
+             '\u2126m', '\u212a', '\u212bx', '\uff58', '\ufb01t', '%\u2126 \u212b%']
 STR_POOL = ['"s"', "'q'", 'r"\\d+"', '"a\\"b"', '""', "'x y'", '"%z%"', '"# no comment"', "'name'", '"a b c"', "r'x'", '"for x in y"', '"1 + nope"']
 NUM_POOL = ['1', '2.5', '0', '007', '10.50']
 TWO_CHAR_OPS = {'==', '!=', '>=', '<=', '=>', '**', '+=', '-=', '*=', '/='}
